@@ -831,3 +831,20 @@ func runReplay(ck *Check, path string) int {
 	}
 	return runParent(ck, rp.Tier, rp.Seed, rp.Key)
 }
+
+// Recorder is the part of Ctx an oracle needs; Collector is a stand-alone implementation (fuzz targets).
+type Recorder interface {
+	Count(name string, n int64)
+	Violate(sig, msg, key string, cs interface{})
+}
+
+type Collector struct {
+	v []Violation
+}
+
+func NewCollector() *Collector                  { return &Collector{} }
+func (c *Collector) Count(name string, n int64) {}
+func (c *Collector) Violate(sig, msg, key string, cs interface{}) {
+	c.v = append(c.v, Violation{Sig: sig, Msg: msg, Key: key})
+}
+func (c *Collector) Violations() []Violation { return c.v }
